@@ -2,7 +2,7 @@
 method; the serde bridge never narrows integers with `as`; derive-generated views agree on
 the field set."""
 from facts import LIB_CRATES
-from mirutil import op_local, all_operands
+from mirutil import op_local, all_operands, alias_closure
 
 VV = "liquid_core::model::value::view::ValueView"
 OV = "liquid_core::model::object::ObjectView"
@@ -237,3 +237,42 @@ def run_string_siblings(P, rep, rule="R-SIBLINGS.str"):
                          "(e.g. blank for whitespace-only content)" % (m, short, m))
             else:
                 rep.ok(rule, site, P.where(fn), "forwards to <&str as ValueView>::%s" % m)
+
+
+# ---------------------------------------------------------------------------------------
+# R-VARIANTKEY: enum variants are keyed by the variant's name, never by the enum's type name
+
+def run_variant_key(P, rep, rule="R-VARIANTKEY"):
+    """Every serde `serialize_*_variant` of the model serializers (ValueSerializer, ObjectSerializer, ScalarSerializer,
+    MapKeySerializer): the enum type name parameter (`name`) is not used, except when the whole call is forwarded to the
+    same method of another serializer — so to_value and to_object tag a variant with the same key."""
+    n = 0
+    for fn in sorted(P.fns.values(), key=lambda f: f.id):
+        if not (fn.crate == "liquid_core" and fn.item_name and fn.item_name.startswith("serialize_") and fn.item_name.endswith("_variant")
+                and fn.impl and fn.impl.get("trait") == "serde::ser::Serializer"):
+            continue
+        n += 1
+        site = "%s::%s" % (P.tstr(fn.crate, fn.impl["self"]).rsplit("::", 1)[-1], fn.item_name)
+        al = alias_closure(fn, [2])
+        bad = []
+        for bi, t in P.calls(fn):
+            for k, a in enumerate(t["args"]):
+                ol = op_local(a)
+                if ol and ol[0] in al:
+                    f = t.get("f")
+                    if f and f["id"].rsplit("::", 1)[1] == fn.item_name and k == 1:
+                        continue
+                    bad.append((f["name"] if f else "indirect call", t["line"]))
+        for b in fn.blocks:
+            for st in b["s"]:
+                if st[0] == "a" and st[2]["k"] == "agg":
+                    for o in st[2].get("ops", []):
+                        ol = op_local(o)
+                        if ol and ol[0] in al:
+                            bad.append(("an aggregate", st[3] if len(st) > 3 else fn.line))
+        if bad:
+            rep.viol(rule, site, P.where(fn, bad[0][1]), "the enum's type name (`name`) flows into %s: a variant would be tagged with the enum's name instead of the variant's" % bad[0][0])
+        else:
+            rep.ok(rule, site, P.where(fn), "`name` unused (or forwarded as `name`)")
+    if n == 0:
+        rep.anchor_missing(rule, "serialize_*_variant methods")
